@@ -2618,30 +2618,48 @@ def namespace_to_flowir(
     if errors:
         raise experiment.model.errors.DSLInvalidError.from_errors(errors)
 
-    component_names: typing.Dict[str, int] = {}
     uid_to_name: typing.Dict[typing.Tuple[str, ...], typing.Tuple[int, str]] = {}
+    # VV: the (stage, name) pairs that are already taken by a component
+    used_names: typing.Set[typing.Tuple[int, str]] = set()
 
     pattern_name = re.compile(SignatureNamePattern)
+    naming_errors = []
 
     for _, comp in components.items():
         assert isinstance(comp.scope.template, Component)
 
-        if comp.step_name not in component_names:
-            component_names[comp.step_name] = 0
-            name = comp.step_name
-        else:
-            component_names[comp.step_name] += 1
-            prior = component_names[comp.step_name]
+        # VV: Resolve name conflicts by appending the first roman numeral that produces an unused name
+        prior = 0
+        name = comp.step_name
+
+        while True:
+            match = pattern_name.fullmatch(name)
+            if match is None:
+                break
+            match_groups = match.groupdict()
+            full_name = (int(match_groups.get("stage") or 0), match_groups["name"])
+            if full_name not in used_names:
+                break
+            prior += 1
             name = "-".join((comp.step_name, number_to_roman_like_numeral(prior)))
 
+        if match is None:
+            naming_errors.append(experiment.model.errors.DSLInvalidFieldError(
+                location=comp.scope.dsl_location(),
+                underlying_error=ValueError(
+                    f"The step name {comp.step_name} of {comp.scope.location} cannot be the name of a component "
+                    f"(component names cannot end with a digit)")
+            ))
+            continue
 
-        match = pattern_name.fullmatch(name)
-        match_groups = match.groupdict()
+        used_names.add(full_name)
+        uid_to_name[tuple(comp.scope.location)] = full_name
 
-        uid_to_name[tuple(comp.scope.location)] = (int(match_groups.get("stage") or 0), match_groups["name"])
+        comp.flowir['name'] = full_name[1]
+        comp.flowir['stage'] = full_name[0]
 
-        comp.flowir['name'] = uid_to_name[tuple(comp.scope.location)][1]
-        comp.flowir['stage'] = uid_to_name[tuple(comp.scope.location)][0]
+    if naming_errors:
+        raise experiment.model.errors.DSLInvalidError.from_errors(naming_errors)
 
     complete = experiment.model.frontends.flowir.FlowIRConcrete(
         flowir_0={},
